@@ -220,7 +220,7 @@ def std_lattice(sg):
     return np.array([[F(float(v)).limit_denominator(10 ** 6) for v in row] for row in lat], dtype=object)
 
 
-def make_dataset(e, sg, occupation, tag="", transform=None, order=None, wrap=True, concrete_params=None):
+def make_dataset(e, sg, occupation, tag="", transform=None, order=None, wrap=True, concrete_params=None, orig_order=None):
     """SpglibContract: the dataset spglib documents for a crystal of space group `sg` given in its standard setting with
     the orbits `occupation` = [(letter, Z)] occupied at symbolic generic parameters.  `transform` (4x4 key) moves the
     whole crystal by an affine map first (another origin choice / normalizer image); letters are then those of the image
@@ -285,6 +285,20 @@ def make_dataset(e, sg, occupation, tag="", transform=None, order=None, wrap=Tru
                  transformation_matrix=np.eye(3), origin_shift=np.zeros(3))
     ds["_params"] = params
     ds["_occupation"] = list(occupation)
+    # the analysed ("original") system: the standardized cell itself, optionally with its atoms listed in another order
+    oo = list(range(n)) if orig_order is None else list(orig_order)
+    ds["orig_positions"] = np.array([pos[i] for i in oo], dtype=object).reshape(n, 3)
+    ds["orig_types"] = np.array([nums[i] for i in oo])
+    if orig_order is not None:
+        ds["wyckoffs"] = [letters[i] for i in oo]
+        inv_o = {old: new for new, old in enumerate(oo)}
+        ds["crystallographic_orbits"] = np.array([min(inv_o[j] for j in range(n) if orbits_id[j] == orbits_id[i]) for i in oo])
+        ds["equivalent_atoms"] = ds["crystallographic_orbits"].copy()
+        mp_o = [int(mapping[i]) for i in oo]
+        ren2 = {}
+        ds["mapping_to_primitive"] = np.array([ren2.setdefault(m, len(ren2)) for m in mp_o])
+        # std_mapping_to_primitive must use the same primitive numbering
+        ds["std_mapping_to_primitive"] = np.array([ren2[int(m)] for m in mapping])
     return ds
 
 
@@ -350,7 +364,7 @@ class Session:
         self.systems = []
         for i, ds in enumerate(self.datasets):
             n = len(ds.std_types)
-            self.systems.append(StubAtoms(numbers=np.array(ds.std_types), scaled_positions=ds.std_positions, cell=ds.std_lattice, pbc=pbc))
+            self.systems.append(StubAtoms(numbers=np.array(ds.get("orig_types", ds.std_types)), scaled_positions=ds.get("orig_positions", ds.std_positions), cell=ds.std_lattice, pbc=pbc))
         self.table = {id(s): d for s, d in zip(self.systems, self.datasets)}
         self.an = None
         self.exact_wrap = exact_wrap
@@ -406,11 +420,12 @@ def occupations(sg, max_orbits, species):
 
 
 # --------------------------------------------------------------------------------------- concrete replay helpers
-def concrete_dataset(sg, occ, vals, transform=None, order=None):
+def concrete_dataset(sg, occ, vals, transform=None, order=None, orig_order=None):
     """the SpglibContract dataset for concrete parameter values, as plain float/int arrays"""
-    ds = make_dataset(None, sg, occ, transform=transform, order=order, concrete_params=[[F(float(v)).limit_denominator(10 ** 9) for v in p] for p in vals])
+    ds = make_dataset(None, sg, occ, transform=transform, order=order, orig_order=orig_order, concrete_params=[[F(float(v)).limit_denominator(10 ** 9) for v in p] for p in vals])
     out = Dataset(ds)
     out["std_positions"] = np.array([[float(v.cval()) for v in row] for row in ds.std_positions], dtype=float).reshape(-1, 3)
+    out["orig_positions"] = np.array([[float(v.cval()) for v in row] for row in ds["orig_positions"]], dtype=float).reshape(-1, 3)
     out["std_lattice"] = np.array([[float(v) for v in row] for row in ds.std_lattice], dtype=float)
     out["translations"] = np.array([[float(v.cval()) for v in row] for row in ds.translations], dtype=float)
     out["wyckoffs"] = list(ds.wyckoffs)
@@ -423,7 +438,7 @@ class RealSession:
     def __init__(self, datasets, pbc=True):
         from ase import Atoms
         self.datasets = datasets
-        self.systems = [Atoms(numbers=d.std_types, scaled_positions=d.std_positions, cell=d.std_lattice, pbc=pbc) for d in datasets]
+        self.systems = [Atoms(numbers=d.get("orig_types", d.std_types), scaled_positions=d.get("orig_positions", d.std_positions), cell=d.std_lattice, pbc=pbc) for d in datasets]
         self.table = {id(s): d for s, d in zip(self.systems, datasets)}
         self.an = None
 
